@@ -366,6 +366,9 @@ def restore(out, i, src_live, op, recipe, tol, phase):
         if n in src_modes and m.training != src_modes[n]:
             m.train(src_modes[n])
     out.stats["probe:restored_state_dict"] += 1
+    ct = getattr(new, "_ctor_tensors", None)
+    if ct is not None and (ct[0].shape != ct[1].shape or not torch.equal(ct[0], ct[1])):
+        out.violate("copy_not_independent", i, "load_state_dict wrote into a tensor of the caller: the inducing points passed to the constructor changed by %.3g" % float((ct[0] - ct[1]).abs().max()), quantity="caller_tensor", **cls)
     if op.get("loose_shapes"):
         new.load_strict_shapes(True)
     # the restored model is a model of its own: no parameter / buffer shares storage with the model the dict came from
